@@ -315,12 +315,12 @@ def run(check, repo, tier):
     dec_names = names - enc_names if enc_names != names else names
     ascii_into_utf8 = enc_names <= {"ascii", "us-ascii"} and dec_names <= {"utf-8", "utf8"}
     if len(names) == 1:
-        check.ok("R3", f"one codec at all {len(sites)} sites: {sorted(names)}")
+        check.ok("R3", f"one codec at all {len(sites)} sites: {sorted(names, key=str)}")
     elif ascii_into_utf8:
-        check.ok("R3", f"the builder encodes as ASCII and the writers decode as UTF-8: every ASCII byte string decodes to the same text ({sorted(codecs)})")
+        check.ok("R3", f"the builder encodes as ASCII and the writers decode as UTF-8: every ASCII byte string decodes to the same text ({sorted(codecs, key=str)})")
     else:
-        check.violation("R3", "codec-mismatch", f"encoder and decoders disagree on the codec: {sorted(codecs)}", [])
-    check.analysed = dict(cr.stats, registration_paths=n4, filewriter_paths=n5, decoder_paths=n3, codec_sites=sorted(codecs))
+        check.violation("R3", "codec-mismatch", f"encoder and decoders disagree on the codec: {sorted(codecs, key=str)}", [])
+    check.analysed = dict(cr.stats, registration_paths=n4, filewriter_paths=n5, decoder_paths=n3, codec_sites=sorted(codecs, key=str))
     check.coverage["exhaustive"] = tier == "thorough"
     check.explanation = (
         "Writers are external objects: the abstract interpreter records every call that leaves the package with receiver, "
